@@ -36,6 +36,7 @@ def place_markers(rng, p):
                     m = mark()
                     h["sv_attrs"].append(f"verif_mark({m})")
                     exp[m] = ("variant", prefix + MSG_OF[h["kind"]], T.variant_ident(h["name"]))
+                h["sv_attrs_above"] = rng.choice([0, 0, 1, len(h["sv_attrs"])])
             if h["kind"] == "reply":
                 continue
             for a in h["args"]:
